@@ -1713,6 +1713,33 @@ def _add_c03_finite_grid():
 _add_c03_finite_grid()
 
 
+# C03 finiteness, grid program without the space-between restriction (Props/C03FiniteGrid2.lean; task Y, second part)
+C03_FINITE_GRID2 = [
+    "C03Finite.grid_finite_calm_partial", "C03Finite.algFin_grid_calm_partial",
+    "C03Finite.eval_finite_all_trees_calm_partial", "C03Finite.root_pass_finite_all_trees_calm_partial",
+    "C03Finite.relayout_finite_all_trees_calm_partial",
+    "C03Finite.grid_sizing_finite_calm", "C03Finite.grid_sizing_keeps_odd", "C03Finite.grid_finite_and_safe",
+    "C03Finite.grid_main_finite_calm", "C03Finite.grid_setup_result", "C03Finite.grid_setup_ranges_of_gridSafeB",
+    "C03Finite.gridCalmS_gridCalm",
+    "C03Finite.tGridSB_space_between", "C03Finite.tGridSB_safe", "C03Finite.tGridSB_ok", "C03Finite.tGridSB_root_pass_finite",
+    "C03Finite.tGridSB_evaluated",
+]
+
+
+def _add_c03_finite_grid2():
+    c = PROPS["C03"]
+    c["modules"] = list(c["modules"]) + ["TaffyVerif.Props.C03FiniteGrid2"]
+    c["theorems"] = list(c["theorems"]) + [t for t in C03_FINITE_GRID2 if t not in c["theorems"]]
+    c["level_text"] = c["level_text"] + (
+        " Without the alignment restriction (Props/C03FiniteGrid2.lean): on grid containers that pass the decidable check gridSafeB (every item's track "
+        "range non-empty and inside its axis' vector; implies GridCalm) the four track-sizing runs keep both track vectors at odd length "
+        "(grid_sizing_keeps_odd), so the one division by zero of the gutter adjustment is never stored, and grid_finite_calm_partial / "
+        "eval|root_pass|relayout_finite_all_trees_calm_partial hold for every content alignment, space-between included.")
+
+
+_add_c03_finite_grid2()
+
+
 # C03 (totality): the grid program cannot panic (no overflow in the checked integer code, no out-of-range track index, no
 # fuel exhaustion) whenever the decidable precondition gridSafeB holds — proved on Model/Grid.lean (computeGridLayoutE makes
 # every panic an explicit outcome)
